@@ -349,7 +349,7 @@ def main(tier, seed):
     multi_input_section(rep, ap, rng, tier)
     complex_replay_section(rep, ap, rng, tier)
     import r12
-    r12.c05_projection_nodes(rep, ap, rng, tier)
+    r12.c05_projection_nodes(rep, ap, lib.rng_for(seed, PID + ':projection'), tier)   # own stream: the sections below keep their draws
     same_object_section(rep, ap, rng, tier)
     constant_index_section(rep, ap, rng, tier)
     verdicts, logs = lib.eval_bool_cases(PID, tm.IMPORTS, tm.DEFS, terms, per_file=40)
